@@ -84,7 +84,7 @@ PROPS['C11'] = dict(
 PROPS['C14'] = dict(
     sess=[('sess_c14', 400, 5000), ('py_edges', 300, 4000)],
     events='wr', state=['mps', 'ret', 'rel', 'ctl', 'conn', 'live', 'rb', 'pl'],
-    monitors=[M.mon_c14, M.mon_panic],
+    monitors=[M.mon_c14, M.mon_refused_too_large, M.mon_panic],
     title='Maximum Packet Size is honoured in both directions',
     claim='Proved in Coq, one lemma per transmit site with the exact boundary in the statement: the outbound engine only '
           'writes packets within the limit of the current CONNACK (control packets, PUBREL, retained packets re-checked at send '
@@ -255,7 +255,7 @@ PROPS['C10'] = dict(
          'embassy time driver. No axioms. Known finding K10 (keep-alive < 5 s) is reported as KNOWN-FINDING.')
 
 PROPS['C01'] = dict(
-    sess=[('py_c01', 300, 5000), ('sess_c01', 300, 6000), ('sweep_c01', 200, 5000), ('sess_base', 100, 3000)],
+    sess=[('py_c01', 300, 5000), ('sess_c01', 300, 6000), ('sweep_c01', 200, 5000), ('sess_base', 100, 3000), ('py_c07', 150, 1500)],
     events='wf', state=['ret', 'ctl', 'rel', 'conn', 'live', 'cp'],
     monitors=[M.mon_c01, M.mon_panic],
     title='the outbound byte stream is whole, well-formed MQTT 5 packets',
@@ -394,7 +394,7 @@ PROPS['C13'] = dict(
 PROPS['C16'] = dict(
     sess=[('drain_c16', 300, 5000), ('drain_base', 200, 4000), ('drain_c06', 150, 3000), ('drain_c03', 100, 2000), ('py_hist', 200, 3000)],
     events='wrf', state=['ret', 'ctl', 'rel', 'srv', 'quota', 'h', 'conn', 'live', 'pq', 'cp', 'gen'],
-    monitors=[M.mon_c16, M.mon_c16_flush, M.mon_hist, M.mon_panic],
+    monitors=[M.mon_c16, M.mon_c16_flush, M.mon_hist, M.mon_refused_too_large, M.mon_panic],
     title='with a responsive broker every accepted operation completes; the session quiesces',
     claim='Proved in Coq: a weight on the three outbound queues (per entry 2 + unwritten bytes while being written, 1 while awaiting '
           'its flush, 0 once sent) is strictly decreased by every write step and every flush step of the engine in every state '
